@@ -8,8 +8,17 @@ Thread.start, Popen, communicate, poll, set_result, result, the cancel thread po
 released one label at a time; after every label the observable state (flag, lock owner,
 registry, per job: thread positions, process, exception, stdout, number of set_result calls;
 per shutdown caller: position and pending cancels / joins) is compared with the extracted
-Coq model run on the same schedule.  Independently, the property itself (Python rendering of
-Spec/ExecSpec.v) is evaluated on what the implementation did.
+Coq model run on the same schedule.  Every thread (submitter, worker, shutdown caller, cancel
+task) is parked at an entry gate before it executes anything of the real code, and every access
+to the shared flag / lock is a scheduling point whoever performs it, so that code in front of
+the first modelled operation, an additional early test, or a return before the delivery cannot
+slip through at thread creation time.  When the real classes cannot follow a label they are left
+to complete the run by themselves (first enabled thread) and the property is evaluated on what
+they did.  Other direction: the real classes are explored without the model (all maximal runs
+up to a preemption bound / random runs, chosen among the steps their parked threads can take);
+the model must accept exactly those labels, agree after each, and be quiescent at the end.
+Independently, the property itself (Python rendering of Spec/ExecSpec.v) is evaluated on the
+events and observations of the implementation.
 No edits to /repo: all instrumentation is monkeypatching from this process.
 """
 import concurrent.futures as cf
@@ -48,15 +57,26 @@ ASSUMPTIONS = [
 
 # label tags (coq/Extract/ExC17.v)
 (SUBCHECK, SUBACQ, SUBAPP, SUBSTART, SUBREL, SUBWAIT, POPEN, EXIT, COMMRET, COMMTMO, COMMEXC, FINALLY, SETRES,
- SDSET, SDACQ, SDCANCEL, SDSNAP, SDJOIN, SDRET, SDRAISE) = range(20)
+ SDSET, SDACQ, SDCANCEL, SDSNAP, SDJOIN, SDRET, SDRAISE, SUBRECHECK, SUBUNLOCK, SDREL) = range(23)
 TAGNAME = ["SubCheck", "SubAcquire", "SubAppend", "SubStart", "SubRelease", "SubWait", "Popen", "Exit", "CommRet",
-           "CommTimeout", "CommExc", "Finally", "SetResult", "SdSet", "SdAcquire", "SdCancel", "SdSnap", "SdJoin", "SdReturn", "SdRaise"]
+           "CommTimeout", "CommExc", "Finally", "SetResult", "SdSet", "SdAcquire", "SdCancel", "SdSnap", "SdJoin", "SdReturn", "SdRaise",
+           "SubRecheck", "SubUnlock", "SdRelease"]
+RAW = -1      # [RAW, role, gate]: a step of the implementation that has no label in the model
+SUB_TAGS = (SUBCHECK, SUBACQ, SUBAPP, SUBSTART, SUBREL, SUBWAIT, SUBRECHECK, SUBUNLOCK)
+WRK_TAGS = (POPEN, EXIT, COMMRET, COMMTMO, COMMEXC, FINALLY, SETRES)
 ANSWER_TEXT = ["unsat\n", "sat\n", "unknown\n", "(error \"boom\")\n"]
 
 
 def show(sched):
     out = []
-    for t, a, b in sched:
+    for lab in sched:
+        if lab is None:
+            out.append("<unmodelled step>")
+            continue
+        t, a, b = lab
+        if t == RAW:
+            out.append(f"<{a} leaves `{b}`>")
+            continue
         if t == POPEN:
             out.append(f"Popen({a},{'ok' if b else 'fail'})")
         elif t == COMMRET:
@@ -75,7 +95,7 @@ def cfg_words(tmos, waits):
 
 
 def flat(sched):
-    return [x for l in sched for x in l]
+    return [x for l in sched if l[0] != RAW for x in l]
 
 
 def _big_stack():
@@ -139,7 +159,7 @@ def parse_trace(res, njobs, nsd):
         o["sds"] = []
         for _ in range(nsd):
             d, n = res[i], res[i + 1]
-            if d in (2, 4):
+            if d in (2, 4, 7):
                 pend = res[i + 2: i + 2 + n]
                 i += 2 + n
             else:
@@ -362,7 +382,13 @@ def install(ctl):
             r = ctl.role()
             ctl.gate("start")
             wrole = ("wrk", r[1]) if r and r[0] == "sub" else ("wrk", -1)
-            ctl.spawn(wrole, lambda: self.target(*self.args, **self.kwargs))
+
+            def body():
+                # nothing of the thread body runs before the schedule says so
+                ctl.gate("enter")
+                self.target(*self.args, **self.kwargs)
+
+            ctl.spawn(wrole, body)
 
         def join(self, timeout=None):
             return None
@@ -454,13 +480,12 @@ def install(ctl):
 
         def is_set(self):
             r = ctl.role()
-            if r and r[0] == "sub":
-                ctl.gate("check")
+            if r is not None:
+                ctl.gate("recheck" if ex._lock.owner == r else "check")
             return self.real.is_set()
 
         def set(self):
-            r = ctl.role()
-            if r and r[0] == "sd":
+            if ctl.role() is not None:
                 ctl.gate("set")
             self.real.set()
 
@@ -483,16 +508,17 @@ def install(ctl):
             self.owner = ctl.role()
             return True
 
-        def release(self):
-            ctl.gate("release")
+        def release(self, gate="release"):
+            ctl.gate(gate)
             self.owner = None
             self.real.release()
 
         def __enter__(self):
             return self.acquire()
 
-        def __exit__(self, *a):
-            self.release()
+        def __exit__(self, et=None, ev=None, tb=None):
+            # leaving the `with` normally / by an exception (submit: ShutdownError under the lock)
+            self.release("release" if et is None else "unlock")
             return False
 
         def locked(self):
@@ -561,8 +587,22 @@ def verdict_code(res):
     return 4
 
 
+SUBG = {"enter": 0, "check": 0, "acquire": 1, "recheck": 8, "append": 2, "start": 3, "release": 4, "unlock": 9, "wait": 5}
+WRKG = {"enter": 1, "popen": 1, "comm": 2, "finally": 3, "setres": 4}
+SUB_GATE = {SUBCHECK: "check", SUBACQ: "acquire", SUBRECHECK: "recheck", SUBUNLOCK: "unlock", SUBAPP: "append",
+            SUBSTART: "start", SUBREL: "release", SUBWAIT: "wait"}
+
+
 def impl_run(case):
-    """Force the schedule on the real classes.  Returns dict(obs=[...], error=None|str, at=index)."""
+    """Drive the real classes.  The labels of case["sched"] are forced one by one; if the
+    implementation cannot follow one of them (or case["free"] is set) the run is *completed by
+    the implementation*: enabled steps of the parked threads are released (first / random one)
+    until nothing can move, every step recorded with the label it corresponds to (None for a
+    step that has no label in the model) and the observation after it.
+    Returns dict(obs=[...aligned with the forced labels...], error, at, tail=[{label, what, obs}],
+    stuck=[threads that never finished], done=bool (ran until nothing could move))."""
+    import random
+
     tmos, waits, sched = case["tmos"], case["waits"], case["sched"]
     n, nsd = len(tmos), len(waits)
     ctl = Ctl(tmos, waits)
@@ -577,6 +617,7 @@ def impl_run(case):
                                          solver_timeout_assertion=(7.5 if tmos[j] else 0), cache_solver=False)
             ctx = types.SimpleNamespace(args=args, path_id=j, dump_file=os.path.join(tmpdir, f"{j}.smt2"),
                                         solving_ctx=solving_ctx, query=None, is_refined=False)
+            ctl.gate("enter")           # the call happens when the schedule says so
             try:
                 out = S.solve_low_level(ctx)
             except P.ShutdownError:
@@ -590,6 +631,7 @@ def impl_run(case):
             ctl.subres[j] = [6, verdict_code(out.result)]
 
         def sd_body(k):
+            ctl.gate("enter")           # the call happens when the schedule says so
             try:
                 ex.shutdown(wait=bool(waits[k]))
             except _Abort:
@@ -605,15 +647,16 @@ def impl_run(case):
         for k in range(nsd):
             ctl.spawn(("sd", k), lambda k=k: sd_body(k))
         if not ctl.settle():
-            return {"obs": [], "error": "threads did not reach their first gates", "at": -1}
+            return {"obs": [], "error": "threads did not reach their first gates", "at": -1, "tail": [], "stuck": [], "done": False}
 
-        SUBG = {"check": 0, "acquire": 1, "append": 2, "start": 3, "release": 4, "wait": 5}
-        WRKG = {"popen": 1, "comm": 2, "finally": 3, "setres": 4}
+        def fut_done(j):
+            f = ctl.futs[j] if 0 <= j < n else None
+            return f is not None and f.done()
 
         def observe():
             o = {"flag": int(ex._shutdown.real.is_set())}
             ow = ex._lock.owner
-            o["lock"] = [0, 0] if ow is None else ([1, ow[1]] if ow[0] == "sub" else [2, ow[1]])
+            o["lock"] = [0, 0] if ow is None else ([1, ow[1]] if ow[0] == "sub" else ([2, ow[1]] if ow[0] == "sd" else ["held by", str(ow)]))
             if (ow is not None) != ex._lock.real.locked():
                 o["lock"] = ["inconsistent", str(ow), ex._lock.real.locked()]
             o["reg"] = [getattr(x, "_c17_j", -1) for x in list.__iter__(ex._futures)]
@@ -646,18 +689,25 @@ def impl_run(case):
                         jb["sets"] = f"done()={f.done()} but set_result calls={ctl.sets[j]}"
                     if len(ctl.procs[j]) > 1:
                         jb["proc"] = f"{len(ctl.procs[j])} processes spawned"
+                    if wpc == 5 and not f.done():
+                        jb["wpc"] = "worker thread ended without delivering a result"
                 o["jobs"].append(jb)
             o["sds"] = []
             for k in range(nsd):
                 t = ctl.th[("sd", k)]
                 g = t["gate"]
+                cans = sorted(r[2] for r, c in ctl.th.items() if r[0] == "can" and r[1] == k and c["state"] != "done")
                 if t["state"] == "done":
                     d = {"dpc": 6 if ctl.sdraised[k] else 5, "pending": []}
-                elif g == "set":
+                elif g in ("enter", "set"):
                     d = {"dpc": 0, "pending": []}
+                elif g == "acquire":
+                    d = {"dpc": 1, "pending": []}
                 elif waits[k]:
                     if g == "snap":
                         d = {"dpc": 3, "pending": []}
+                    elif g == "release":
+                        d = {"dpc": 7, "pending": list(ctl.snap[k] or [])}
                     elif g == "join":
                         d = {"dpc": 4, "pending": list((ctl.snap[k] or [])[ctl.joined[k]:])}
                         if not d["pending"] or d["pending"][0] != t["info"]:
@@ -667,24 +717,37 @@ def impl_run(case):
                     else:
                         d = {"dpc": f"?{t['state']}:{g}", "pending": []}
                 else:
-                    if g == "acquire":
-                        d = {"dpc": 1, "pending": []}
-                    elif t["state"] == "blocked" or g == "release":
-                        pend = sorted(r[2] for r, c in ctl.th.items() if r[0] == "can" and r[1] == k and c["state"] != "done")
-                        d = {"dpc": 2, "pending": pend}
+                    if t["state"] == "blocked" or g == "release":
+                        d = {"dpc": 2, "pending": cans}
+                        cans = []
                     else:
                         d = {"dpc": f"?{t['state']}:{g}", "pending": []}
+                if cans:
+                    d["dpc"] = f"{d['dpc']} with cancel tasks {cans} outside the locked section"
                 o["sds"].append(d)
             return o
 
+        def rel(role, gate, action=None):
+            """release `role` from `gate`; a thread still parked at its entry gate enters first"""
+            with ctl.cv:
+                t = ctl.th.get(role)
+                at_entry = t is not None and t["state"] == "parked" and t["gate"] == "enter" and gate != "enter"
+            if at_entry:
+                err = ctl.release(role, "enter")
+                if err is not None:
+                    return err
+            return ctl.release(role, gate, action)
+
         def apply(lab):
             t, a, b = lab
-            if t <= SUBWAIT:
-                return ctl.release(("sub", a), ["check", "acquire", "append", "start", "release", "wait"][t])
+            if t == RAW:
+                return ctl.release(tuple(a), b)
+            if t in SUB_GATE:
+                return rel(("sub", a), SUB_GATE[t])
             if t == POPEN:
-                return ctl.release(("wrk", a), "popen", bool(b))
+                return rel(("wrk", a), "popen", bool(b))
             if t == EXIT:
-                f = ctl.futs[a]
+                f = ctl.futs[a] if 0 <= a < n else None
                 p = f.process if f is not None else None
                 if p is None or p.state != "run":
                     return f"job {a} has no running process to exit"
@@ -706,29 +769,223 @@ def impl_run(case):
             if t == SETRES:
                 return ctl.release(("wrk", a), "setres")
             if t == SDSET:
-                return ctl.release(("sd", a), "set")
+                return rel(("sd", a), "set")
             if t == SDACQ:
                 return ctl.release(("sd", a), "acquire")
             if t == SDCANCEL:
                 return ctl.release(("can", a, b), "cancel")
             if t == SDSNAP:
                 return ctl.release(("sd", a), "snap")
-            if t in (SDJOIN, SDRAISE):
+            if t == SDREL:
+                return ctl.release(("sd", a), "release") if waits[a] else f"shutdown caller {a} is wait=False: no SdRelease"
+            if t == SDJOIN:
                 return ctl.release(("sd", a), "join")
             if t == SDRET:
                 return ctl.release(("sd", a), "return" if waits[a] else "release")
-            return f"unknown label {lab}"
+            return f"label {lab} has no counterpart in the implementation"
+
+        def candidates():
+            """steps the implementation can take now: (label or None, role, gate)"""
+            out = []
+            with ctl.cv:
+                items = sorted(((r, dict(t)) for r, t in ctl.th.items()), key=lambda x: (x[0][0], x[0][1:]))
+            lock_free = ex._lock.owner is None and not ex._lock.real.locked()
+            for role, t in items:
+                if t["state"] != "parked":
+                    continue
+                g, kind, a = t["gate"], role[0], role[1]
+                lab = None
+                if kind == "sub":
+                    m = {"enter": SUBCHECK, "check": SUBCHECK, "recheck": SUBRECHECK, "unlock": SUBUNLOCK, "append": SUBAPP,
+                         "start": SUBSTART, "release": SUBREL}
+                    if g in m:
+                        lab = [m[g], a, 0]
+                    elif g == "acquire":
+                        if not lock_free:
+                            continue
+                        lab = [SUBACQ, a, 0]
+                    elif g == "wait":
+                        if not fut_done(a):
+                            continue
+                        lab = [SUBWAIT, a, 0]
+                elif kind == "wrk":
+                    if g in ("enter", "popen"):
+                        lab = [POPEN, a, 1]
+                    elif g == "comm":
+                        f = ctl.futs[a] if 0 <= a < n else None
+                        p = f.process if f is not None else None
+                        lab = [EXIT, a, 0] if (p is not None and p.state == "run") else [COMMRET, a, 0]
+                    elif g == "finally":
+                        lab = [FINALLY, a, 0]
+                    elif g == "setres":
+                        lab = [FINALLY, a, 0] if ctl.vfin[a] else [SETRES, a, 0]
+                elif kind == "sd":
+                    if g in ("enter", "set"):
+                        lab = [SDSET, a, 0]
+                    elif g == "acquire":
+                        if not lock_free:
+                            continue
+                        lab = [SDACQ, a, 0]
+                    elif g == "snap":
+                        lab = [SDSNAP, a, 0]
+                    elif g == "release":
+                        lab = [SDREL, a, 0] if waits[a] else [SDRET, a, 0]
+                    elif g == "join":
+                        if not fut_done(t["info"] if isinstance(t["info"], int) else -1):
+                            continue
+                        lab = [SDJOIN, a, 0]
+                    elif g == "return":
+                        lab = [SDRET, a, 0]
+                elif kind == "can":
+                    if g == "cancel":
+                        lab = [SDCANCEL, a, role[2]]
+                out.append((lab, role, g))
+            return out
+
+        def free_run(r, tail, limit=400):
+            """let the implementation finish; r = random.Random or None (first candidate)"""
+            for _ in range(limit):
+                cands = candidates()
+                if not cands:
+                    return True
+                lab, role, g = r.choice(cands) if r is not None else cands[0]
+                if lab is not None and r is not None:
+                    t, a = lab[0], lab[1]
+                    if t == POPEN and r.random() < 0.15:
+                        lab = [POPEN, a, 0]
+                    elif t == EXIT:
+                        x = r.random()
+                        if x < 0.25 and tmos[a]:
+                            lab = [COMMTMO, a, 0]
+                        elif x < 0.32:
+                            lab = [COMMEXC, a, 0]
+                    elif t == COMMRET:
+                        x = r.random()
+                        if x < 0.1 and tmos[a]:
+                            lab = [COMMTMO, a, 0]
+                        elif x < 0.15:
+                            lab = [COMMEXC, a, 0]
+                        else:
+                            lab = [COMMRET, a, r.randrange(4)]
+                if lab is None:
+                    err = ctl.release(role, g)
+                    what = f"step of thread {role} at `{g}` that has no label in the model"
+                else:
+                    err = apply(lab)
+                    what = None
+                    if err is not None:
+                        what, lab = f"{show([lab])} could not be completed: {err}", None
+                if ctl.errors:
+                    what = (what or "") + " harness errors: " + "; ".join(ctl.errors)
+                    del ctl.errors[:]
+                    lab = None
+                tail.append({"label": lab, "what": what, "obs": observe()})
+                if err is not None and "did not settle" in err:
+                    return False
+            return False
+
+        def thread_of(lab, role=None):
+            """submitter j / worker j with its process / shutdown caller k with its cancel tasks"""
+            if role is not None:
+                return ("sd", role[1]) if role[0] == "can" else (role[0], role[1])
+            t, a = lab[0], lab[1]
+            if t == RAW:
+                return thread_of(None, tuple(a))
+            return ("sub", a) if t in SUB_TAGS else (("wrk", a) if t in WRK_TAGS else ("sd", a))
+
+        ex_cfg = case.get("explore")
+        last_thread, npre = None, 0
+
+        def cost_of(th, cands):
+            if last_thread is None or th == last_thread:
+                return 0
+            return 1 if any(thread_of(None, role) == last_thread for _, role, _ in cands) else 0
+
+        def variants(lab, mask):
+            t, a = lab[0], lab[1]
+            if t == POPEN:
+                return [lab] + ([[POPEN, a, 0]] if mask & 1 else [])
+            if t in (EXIT, COMMRET):
+                out_ = [lab]
+                if t == COMMRET and mask & 8:
+                    out_ += [[COMMRET, a, x] for x in (1, 2, 3)]
+                if mask & 4 and tmos[a]:
+                    out_.append([COMMTMO, a, 0])
+                if mask & 2:
+                    out_.append([COMMEXC, a, 0])
+                return out_
+            return [lab]
 
         obs = [observe()]
+        error, at = None, len(sched)
         for i, lab in enumerate(sched):
+            if ex_cfg is not None:
+                th = thread_of(lab)
+                npre += cost_of(th, candidates())
+                last_thread = th
             err = apply(lab)
             if err is None and ctl.errors:
                 err = "; ".join(ctl.errors)
+                del ctl.errors[:]
             if err is not None:
-                return {"obs": obs, "error": err, "at": i}
+                error, at = err, i
+                break
             obs.append(observe())
+        tail, done = [], error is None
+        if error is not None:
+            # whatever the failed label did to the implementation is the first event of the completion
+            tail.append({"label": None, "what": f"label #{at} {show(sched[at:at + 1])} could not be followed: {error}", "obs": observe()})
+            if "did not settle" not in error:
+                done = free_run(None, tail)
+        elif case.get("free") is not None:
+            done = free_run(random.Random(case["free"]), tail)
+        alts = []
+        if error is None and ex_cfg is not None:
+            # stateless exploration of the implementation: continue on the current thread while it can
+            # move (else the first thread that can); every other enabled step within the preemption
+            # budget is returned as an alternative prefix to be explored by another run
+            maxpre, mask = ex_cfg["maxpre"], ex_cfg["mask"]
+            done = False
+            for _ in range(400):
+                cands = candidates()
+                if not cands:
+                    done = True
+                    break
+                opts = []
+                for lab, role, g in cands:
+                    th = thread_of(None, role)
+                    for v in (variants(lab, mask) if lab is not None else [[RAW, list(role), g]]):
+                        opts.append((v, th))
+                pick = next((o for o in opts if o[1] == last_thread), opts[0])
+                pos = len(sched) + len(tail)
+                for o in opts:
+                    if o is not pick and npre + cost_of(o[1], cands) <= maxpre:
+                        alts.append([pos, o[0]])
+                npre += cost_of(pick[1], cands)
+                last_thread = pick[1]
+                err = apply(pick[0])
+                what = None
+                if pick[0][0] == RAW:
+                    what = f"step of thread {tuple(pick[0][1])} at `{pick[0][2]}` that has no label in the model"
+                if err is not None:
+                    what = f"{show([pick[0]])} could not be completed: {err}"
+                if ctl.errors:
+                    what = (what or "") + " harness errors: " + "; ".join(ctl.errors)
+                    del ctl.errors[:]
+                tail.append({"label": pick[0] if what is None else None, "step": pick[0], "what": what, "obs": observe()})
+                if err is not None:
+                    # do not branch below a step that went wrong; let the implementation finish
+                    done = free_run(None, tail) if "did not settle" not in err else False
+                    break
+        not_quiescent = None
+        if error is None and (case.get("maximal") or case.get("free") is not None or ex_cfg is not None):
+            rest = candidates()
+            if rest:
+                not_quiescent = "; ".join(f"{role} at `{g}`" for _, role, g in rest)
+        with ctl.cv:
+            stuck = [[str(r), t["state"], t["gate"]] for r, t in sorted(ctl.th.items(), key=lambda x: str(x[0])) if t["state"] != "done"]
         extra = {"comm_timeouts": [None if x is None else 1 for x in ctl.comm_timeouts]}
-        return {"obs": obs, "error": None, "at": len(sched), **extra}
+        return {"obs": obs, "error": error, "at": at, "tail": tail, "done": done, "stuck": stuck, "not_quiescent": not_quiescent, "alts": alts, **extra}
     finally:
         ctl.stop()
         if getattr(ctl, "restore", None):
@@ -745,26 +1002,53 @@ def impl_run_safe(case):
     except Exception as e:  # noqa: BLE001
         import traceback
 
-        return {"obs": [], "error": f"harness exception {type(e).__name__}: {e}", "at": -1, "trace": traceback.format_exc()[-1500:]}
+        return {"obs": [], "error": f"harness exception {type(e).__name__}: {e}", "at": -1, "tail": [], "stuck": [], "done": False,
+                "trace": traceback.format_exc()[-1500:]}
 
 
 # =========================================================================== the property (python rendering of Spec/ExecSpec.v)
 
+def impl_driven(case):
+    """the schedule is chosen by the implementation (random completion / stateless exploration)"""
+    return case.get("free") is not None or case.get("explore") is not None
+
+
+def impl_events(case, res):
+    """What the implementation did, as (labels, obs): obs[0] is the initial observation and
+    obs[i + 1] the one after labels[i].  The labels are the forced ones that the implementation
+    followed, then the steps of the completion it ran by itself (label None = a step that has no
+    label in the model)."""
+    k = max(0, len(res.get("obs", [])) - 1)
+    tail = res.get("tail") or []
+    labels = [(None if l[0] == RAW else list(l)) for l in case["sched"][:k]] + [e["label"] for e in tail]
+    obs = list(res.get("obs", [])) + [e["obs"] for e in tail]
+    return labels, obs
+
+
 def spec_check(case, res):
     """Evaluate the property on what the implementation did.  Returns a list of
-    dict(clause, cause, detail).  Uses only the schedule (events) and the implementation's
-    observations -- not the model."""
-    tmos, waits, sched = case["tmos"], case["waits"], case["sched"]
-    obs = res["obs"]
+    dict(clause, cause, detail).  Uses only the events and observations of the implementation
+    -- not the model."""
+    tmos, waits = case["tmos"], case["waits"]
+    labels, obs = impl_events(case, res)
     n = len(tmos)
     out = []
-    steps = min(len(sched), len(obs) - 1)
+    if not obs:
+        return out
 
-    def first(pred):
-        for i in range(steps):
-            if pred(sched[i]):
+    def first(pred, start=0):
+        for i in range(start, len(labels)):
+            l = labels[i]
+            if l is not None and pred(l):
                 return i
         return None
+
+    def wpc(i, j):
+        return obs[i]["jobs"][j]["wpc"]
+
+    def accepted_at(j):
+        """index of the observation at which job j's worker thread exists for the first time"""
+        return next((i for i in range(len(obs)) if wpc(i, j) != 0), None)
 
     # delivered at most once, at every point of the run
     for i, o in enumerate(obs):
@@ -772,18 +1056,29 @@ def spec_check(case, res):
             if not isinstance(jb["sets"], int) or jb["sets"] > 1:
                 out.append({"clause": "delivered-at-most-once", "cause": "set_result-twice", "detail": f"job {j} after step {i}: {jb['sets']}"})
                 break
-    complete = res["error"] is None and case.get("maximal", False)
+    # the run is complete when nothing can move any more: a maximal schedule of the model that the
+    # implementation followed to the end, or a completion the implementation ran by itself
+    if res.get("error") is None:
+        complete = bool(case.get("maximal")) or (impl_driven(case) and bool(res.get("done")))
+    else:
+        complete = bool(res.get("done"))
     if complete:
         last = obs[-1]
+        stuck = {s[0]: s for s in res.get("stuck", [])}
         for j in range(n):
             jb = last["jobs"][j]
-            acc = first(lambda l: l[0] == SUBSTART and l[1] == j) is not None
+            acc = accepted_at(j) is not None
             if acc and jb["sets"] != 1:
-                out.append({"clause": "delivered-exactly-once", "cause": "not-delivered", "detail": f"job {j} accepted but set_result calls = {jb['sets']} at the end"})
+                out.append({"clause": "delivered-exactly-once", "cause": "not-delivered", "detail": f"job {j} accepted but set_result calls = {jb['sets']} at the end (worker: {jb['wpc']})"})
             if acc and jb["spc"][0] != 6:
-                out.append({"clause": "wait-returns", "cause": "waiter-stuck", "detail": f"job {j}: submitter ends at {jb['spc']}"})
+                out.append({"clause": "wait-returns", "cause": "waiter-stuck", "detail": f"job {j}: accepted, nothing can move any more, but its submitter is still at {jb['spc']} {stuck.get(str(('sub', j)), '')}"})
             if not acc and jb["spc"][0] != 7:
-                out.append({"clause": "wait-returns", "cause": "submit-stuck", "detail": f"job {j}: not accepted, submitter ends at {jb['spc']}"})
+                out.append({"clause": "wait-returns", "cause": "submit-stuck", "detail": f"job {j}: not accepted, nothing can move any more, its submitter is at {jb['spc']} {stuck.get(str(('sub', j)), '')}"})
+        for k in range(len(waits)):
+            d = last["sds"][k]["dpc"]
+            if d not in (5, 6):
+                out.append({"clause": "shutdown-wait-returns", "cause": "shutdown-stuck", "k": k,
+                            "detail": f"shutdown(wait={bool(waits[k])}) #{k}: nothing can move any more but the call has not returned (state {last['sds'][k]}) {stuck.get(str(('sd', k)), '')}"})
     # time limit exceeded => TimeoutExpired => unknown, never unsat
     for j in range(n):
         it = first(lambda l: l[0] == COMMTMO and l[1] == j)
@@ -801,52 +1096,75 @@ def spec_check(case, res):
     for j, v in enumerate(res.get("comm_timeouts", [])):
         if first(lambda l: l[0] in (COMMRET, COMMTMO, COMMEXC) and l[1] == j) is not None and bool(v) != bool(tmos[j]):
             out.append({"clause": "timeout-unknown", "cause": "timeout-not-passed", "detail": f"job {j}: communicate(timeout={'set' if v else 'None'}) but time limit configured = {bool(tmos[j])}"})
-    # after shutdown() has returned: nothing accepted, nothing running
+    # after a shutdown() call has ended: it has not raised, nothing is accepted any more, no process runs
     for k, w in enumerate(waits):
-        r = first(lambda l: l[0] in (SDRET, SDRAISE) and l[1] == k)
-        if r is None:
+        ri = next((i for i, o in enumerate(obs) if o["sds"][k]["dpc"] in (5, 6)), None)
+        if ri is None:
             continue
-        if sched[r][0] == SDRAISE:
-            snap = first(lambda l: l[0] == SDSNAP and l[1] == k)
-            left = [j for j in obs[snap + 1]["reg"] if obs[r + 1]["jobs"][j]["sets"] != 1]
+        when = f"shutdown(wait={bool(w)}) #{k} ended after step {ri - 1}"
+        if obs[ri]["sds"][k]["dpc"] == 6:
+            left = [j for j in range(n) if wpc(ri, j) not in (0, 5)]
             out.append({"clause": "shutdown-wait-returns", "cause": "join-reraises-job-exception", "k": k,
-                        "detail": f"shutdown(wait=True) #{k} terminated at step {r} with an exception re-raised from a job's result(); snapshot jobs not waited for and unfinished: {left}"})
+                        "detail": f"{when} with an exception instead of returning; jobs with an unfinished worker at that point: {left}"})
             continue
         s = first(lambda l: l[0] == SDSET and l[1] == k)
-        snap = first(lambda l: l[0] in (SDACQ, SDSNAP) and l[1] == k)
-        if w:
-            # wait=True: every job registered at the snapshot is finished
-            for j in obs[snap + 1]["reg"]:
-                if obs[r + 1]["jobs"][j]["sets"] != 1:
-                    out.append({"clause": "no-process-after-shutdown", "cause": "join-returned-early", "detail": f"shutdown(wait=True) #{k} returned at step {r}, job {j} of its snapshot is not finished"})
         for j in range(n):
-            chk = first(lambda l: l[0] == SUBCHECK and l[1] == j)
-            app = first(lambda l: l[0] == SUBAPP and l[1] == j)
-            st = first(lambda l: l[0] == SUBSTART and l[1] == j)
-            pop = first(lambda l: l[0] == POPEN and l[1] == j and l[2])
-            can = first(lambda l: l[0] == SDCANCEL and l[1] == k and l[2] == j)
-            if st is not None and st > r:
-                cause = "flag-test-before-lock" if (chk is not None and chk < s) else "flag-ignored"
-                out.append({"clause": "no-accept-after-shutdown", "cause": cause, "k": k, "j": j,
-                            "detail": f"job {j} accepted at step {st} after shutdown #{k} (wait={bool(w)}) returned at step {r}; its flag test was at step {chk}, the request at step {s}"})
-            alive = [i for i in range(r + 1, len(obs)) if obs[i]["jobs"][j]["proc"] == 1]
-            if alive:
-                if chk is not None and chk < s and (app is None or app > snap):
-                    cause = "flag-test-before-lock"         # registered after the snapshot although tested before the request
-                elif chk is not None and chk > s:
-                    cause = "flag-ignored"
-                elif not w and can is not None and pop is not None and pop > can:
-                    cause = "cancel-before-popen"
-                elif not w and can is not None and pop is not None and pop < can:
-                    cause = "cancel-did-not-kill"
+            ai = accepted_at(j)
+            if ai is not None and ai > ri:
+                rchk = first(lambda l: l[0] == SUBRECHECK and l[1] == j)
+                if rchk is None or rchk >= ai - 1:
+                    cause = "no-flag-test-under-lock"
+                elif s is not None and rchk < s:
+                    cause = "snapshot-missed-registering-job"
                 else:
-                    cause = "unexpected"
+                    cause = "flag-ignored"
+                out.append({"clause": "no-accept-after-shutdown", "cause": cause, "k": k, "j": j,
+                            "detail": f"job {j} accepted (worker started) at step {ai - 1}, {when}; flag test under the lock at step {rchk}, request at step {s}"})
+            if w and ai is not None and ai <= ri and obs[ri]["jobs"][j]["sets"] != 1:
+                out.append({"clause": "no-process-after-shutdown", "cause": "join-returned-early", "k": k, "j": j,
+                            "detail": f"{when}, job {j} accepted before is not finished (set_result calls {obs[ri]['jobs'][j]['sets']})"})
+            alive = [i for i in range(ri, len(obs)) if obs[i]["jobs"][j]["proc"] == 1]
+            if alive:
+                pop = first(lambda l: l[0] == POPEN and l[1] == j and l[2])
+                can = first(lambda l: l[0] == SDCANCEL and l[1] == k and l[2] == j)
+                if ai is not None and ai > ri:
+                    cause = "accepted-after-shutdown"
+                elif w:
+                    cause = "join-returned-early"
+                elif can is None:
+                    cause = "no-cancel-task"
+                elif pop is not None and pop > can:
+                    cause = "cancel-before-popen"
+                else:
+                    cause = "cancel-did-not-kill"
                 out.append({"clause": "no-process-after-shutdown", "cause": cause, "k": k, "j": j,
-                            "detail": f"process of job {j} runs after step {alive[0]}, shutdown #{k} (wait={bool(w)}) returned at step {r}"})
+                            "detail": f"process of job {j} runs after step {alive[0] - 1}, {when}; its cancel task ran at step {can}, its Popen at step {pop}"})
     return out
 
 
 # =========================================================================== real subprocesses
+
+def alive_with(marker):
+    """pids of live (non-zombie) processes whose command line contains `marker`; reads /proc directly
+    (psutil.process_iter can raise while a process vanishes under it)"""
+    out = []
+    for d in os.listdir("/proc"):
+        if not d.isdigit():
+            continue
+        try:
+            with open(f"/proc/{d}/cmdline", "rb") as f:
+                cmd = f.read().replace(b"\0", b" ").decode("utf-8", "replace")
+            if marker not in cmd:
+                continue
+            with open(f"/proc/{d}/stat", "rb") as f:
+                st = f.read().decode("utf-8", "replace")
+            state = st[st.rindex(")") + 2: st.rindex(")") + 3]
+            if state != "Z":
+                out.append(int(d))
+        except (OSError, ValueError):
+            continue
+    return out
+
 
 def real_low_level(spec):
     """Run the real solve_low_level with a real child process.  spec = dict(script, timeout)."""
@@ -874,11 +1192,7 @@ def real_low_level(spec):
     # every child has been sent SIGKILL by now; give the kernel a moment to tear them down
     t1 = time.time()
     while True:
-        survivors = []
-        for p in psutil.process_iter(["cmdline", "status"]):
-            with contextlib.suppress(Exception):
-                if marker in " ".join(p.info["cmdline"] or []) and p.info["status"] != psutil.STATUS_ZOMBIE:
-                    survivors.append(p.pid)
+        survivors = alive_with(marker)
         if not survivors or time.time() - t1 > 3.0:
             break
         time.sleep(0.1)
@@ -959,11 +1273,7 @@ def real_random_run(seed):
         raised = type(e).__name__
     t_ret = time.time() - t0
     time.sleep(0.1)
-    alive_after = []
-    for p in psutil.process_iter(["cmdline", "status"]):
-        with contextlib.suppress(Exception):
-            if marker in " ".join(p.info["cmdline"] or []) and p.info["status"] != psutil.STATUS_ZOMBIE:
-                alive_after.append(p.pid)
+    alive_after = alive_with(marker)
     for t in ths:
         t.join(25)
     stuck = [j for j, t in enumerate(ths) if t.is_alive()]
@@ -977,21 +1287,42 @@ def real_random_run(seed):
 
 # =========================================================================== the check
 
+def L(*xs):
+    """labels from a compact form: ("c",j) SubCheck ... see LAB"""
+    return [[LAB[x[0]], x[1], (x[2] if len(x) > 2 else 0)] for x in xs]
+
+
+LAB = {"c": SUBCHECK, "a": SUBACQ, "r": SUBRECHECK, "u": SUBUNLOCK, "p": SUBAPP, "s": SUBSTART, "l": SUBREL, "w": SUBWAIT,
+       "P": POPEN, "X": EXIT, "R": COMMRET, "T": COMMTMO, "E": COMMEXC, "F": FINALLY, "S": SETRES,
+       "ds": SDSET, "da": SDACQ, "dc": SDCANCEL, "dn": SDSNAP, "dl": SDREL, "dj": SDJOIN, "dr": SDRET}
+
+
+def _submit(j):
+    return L(("c", j), ("a", j), ("r", j), ("p", j), ("s", j), ("l", j))
+
+
 CORPUS = [
-    # the three witnesses of the _refuted theorems (coq/Proofs/ExecProofs.v), completed to the end
-    {"name": "witness_accept(F5)", "tmos": [0], "waits": [0],
-     "sched": [[0, 0, 0], [13, 0, 0], [14, 0, 0], [18, 0, 0], [1, 0, 0], [2, 0, 0], [3, 0, 0], [4, 0, 0], [6, 0, 1]],
-     "expect": {"no-accept-after-shutdown": "flag-test-before-lock", "no-process-after-shutdown": "flag-test-before-lock"}},
+    # the witness of the _refuted theorem (coq/Proofs/ExecProofs.v: witness_process, F6)
     {"name": "witness_process(F6)", "tmos": [0], "waits": [0],
-     "sched": [[0, 0, 0], [1, 0, 0], [2, 0, 0], [3, 0, 0], [4, 0, 0], [13, 0, 0], [14, 0, 0], [15, 0, 0], [18, 0, 0], [6, 0, 1]],
+     "sched": _submit(0) + L(("ds", 0), ("da", 0), ("dc", 0, 0), ("dr", 0), ("P", 0, 1)),
      "expect": {"no-process-after-shutdown": "cancel-before-popen"}},
-    {"name": "witness_raise(F15)", "tmos": [1, 0], "waits": [1],
-     "sched": [[0, 0, 0], [1, 0, 0], [2, 0, 0], [3, 0, 0], [4, 0, 0], [0, 1, 0], [1, 1, 0], [2, 1, 0], [3, 1, 0], [4, 1, 0],
-               [6, 0, 1], [6, 1, 1], [9, 0, 0], [11, 0, 0], [12, 0, 0], [13, 0, 0], [16, 0, 0], [19, 0, 0]],
-     "expect": {"shutdown-wait-returns": "join-reraises-job-exception"}},
-    {"name": "witness_join", "tmos": [0], "waits": [1],
-     "sched": [[0, 0, 0], [1, 0, 0], [13, 0, 0], [16, 0, 0], [18, 0, 0], [2, 0, 0], [3, 0, 0], [4, 0, 0], [6, 0, 1]],
-     "expect": {"no-accept-after-shutdown": "flag-test-before-lock", "no-process-after-shutdown": "flag-test-before-lock"}},
+    # regression schedules of the repaired defects: the implementation must follow them and the property must hold
+    {"name": "regression F5 (446a9a7): flag test before the lock, request and shutdown(wait=False) in between -> rejected under the lock",
+     "tmos": [0], "waits": [0], "maximal": True,
+     "sched": L(("c", 0), ("ds", 0), ("da", 0), ("dr", 0), ("a", 0), ("r", 0), ("u", 0))},
+    {"name": "regression F15 (0f4e35b): shutdown(wait=True) with a timed-out job first in the snapshot waits for the second job",
+     "tmos": [1, 0], "waits": [1], "maximal": True,
+     "sched": _submit(0) + _submit(1) + L(("P", 0, 1), ("P", 1, 1), ("T", 0), ("F", 0), ("S", 0), ("ds", 0), ("da", 0), ("dn", 0), ("dl", 0),
+                                          ("dj", 0), ("X", 1), ("R", 1, 0), ("F", 1), ("S", 1), ("dj", 0), ("dr", 0), ("w", 0), ("w", 1))},
+    {"name": "regression (2f54d38): submit holds the lock past its flag test while shutdown(wait=True) is requested -> the snapshot waits for the lock and contains the job",
+     "tmos": [0], "waits": [1], "maximal": True,
+     "sched": L(("c", 0), ("a", 0), ("r", 0), ("ds", 0), ("p", 0), ("s", 0), ("l", 0), ("da", 0), ("dn", 0), ("dl", 0), ("P", 0, 1),
+                ("X", 0), ("R", 0, 0), ("F", 0), ("S", 0), ("dj", 0), ("dr", 0), ("w", 0))},
+    # a second shutdown request while the first one is in progress (processes.main(): `with` exit = wait=True, callback = wait=False)
+    {"name": "shutdown(wait=False) issued while shutdown(wait=True) is blocked in _join kills the job and unblocks it",
+     "tmos": [0], "waits": [1, 0], "maximal": True,
+     "sched": _submit(0) + L(("P", 0, 1), ("ds", 0), ("da", 0), ("dn", 0), ("dl", 0), ("ds", 1), ("da", 1), ("dc", 1, 0), ("dr", 1),
+                             ("E", 0), ("F", 0), ("S", 0), ("dj", 0), ("dr", 0), ("w", 0))},
 ]
 
 
@@ -1000,47 +1331,48 @@ def families(tier):
     fam = []
     if tier == "quick":
         fam += [([0], [], 3, 15), ([1], [], 3, 15)]
-        fam += [([1], [0], 2, 4), ([1], [1], 2, 4), ([0], [0], 1, 15), ([0], [1], 1, 15), ([0], [0, 1], 1, 0), ([1], [0, 0], 1, 0)]
-        fam += [([0, 0], [], 1, 0), ([0, 1], [0], 0, 0), ([0, 0], [1], 0, 0)]
+        fam += [([0], [0], 2, 0), ([1], [0], 2, 4), ([0], [1], 2, 0), ([0], [0], 1, 15), ([1], [1], 1, 4), ([0], [0, 1], 1, 0), ([1], [0, 0], 0, 4)]
+        fam += [([0, 0], [], 0, 0), ([0, 1], [0], 0, 0), ([0, 0], [1], 0, 0)]
     else:
         fam += [([0], [], 4, 15), ([1], [], 4, 15)]
-        fam += [([1], [0], 3, 15), ([1], [1], 3, 15), ([0], [0, 1], 2, 0), ([1], [0, 0], 2, 0), ([1], [1, 1], 1, 4)]
+        fam += [([1], [0], 3, 15), ([1], [1], 3, 15), ([0], [0, 1], 2, 0), ([0], [1, 0], 2, 0), ([1], [0, 0], 2, 0), ([1], [1, 1], 1, 4)]
         fam += [([0, 0], [], 2, 0), ([0, 1], [0], 1, 0), ([0, 0], [1], 0, 7), ([0, 1], [0], 0, 4), ([1, 0], [1], 0, 4)]
     return fam
 
 
 def random_schedules(exe, r, tmos, waits, count, maxpre):
-    """random maximal schedules (walkers advanced level by level through c17_enabled)."""
+    """random maximal schedules of the model"""
     cw = cfg_words(tmos, waits)
-
-    def thread_of(l):
-        t, a, b = l
-        return 4 * a if t <= SUBWAIT else (4 * a + 1 if t <= SETRES else 4 * a + 2)
-
     res = model_parallel(exe, [("c17_random", [r.getrandbits(62), maxpre] + cw) for _ in range(count)])
-    if all(x is not None for x in res):
-        return [[list(x[i:i + 3]) for i in range(0, len(x), 3)] for x in res]
-    walkers = [{"s": [], "last": None, "pre": 0, "done": False} for _ in range(count)]
-    for _ in range(200):
-        live = [w for w in walkers if not w["done"]]
-        if not live:
-            break
-        res = model_parallel(exe, [("c17_enabled", cw + flat(w["s"])) for w in live])
-        for w, e in zip(live, res):
-            if not e or e[0] != 1 or e[3] == 0:
-                w["done"] = True
-                continue
-            labs = [e[4 + 3 * i: 7 + 3 * i] for i in range(e[3])]
-            same = [l for l in labs if thread_of(l) == w["last"]]
-            if same and (w["pre"] >= maxpre or r.random() < 0.75):
-                l = r.choice(same)
-            else:
-                l = r.choice(labs)
-                if same and thread_of(l) != w["last"]:
-                    w["pre"] += 1
-            w["s"].append(list(l))
-            w["last"] = thread_of(l)
-    return [w["s"] for w in walkers]
+    return [[list(x[i:i + 3]) for i in range(0, len(x), 3)] for x in res if x is not None]
+
+
+def explore_impl(pool, cfgs, cap):
+    """Stateless exploration of the real classes (no model involved): every maximal run with at most
+    `maxpre` preemptions, data alternatives per `mask` (as c17_enum).  One execution per schedule; an
+    execution returns the alternatives it did not take as new prefixes."""
+    out_cases, out_res, notes = [], [], []
+    for tm, wa, maxpre, mask in cfgs:
+        frontier = [{"tmos": tm, "waits": wa, "sched": [], "explore": {"maxpre": maxpre, "mask": mask}, "maximal": False,
+                     "family": f"impl-exh:{len(tm)}j{len(wa)}s"}]
+        count, truncated = 0, False
+        while frontier:
+            if count + len(frontier) > cap:
+                frontier, truncated = frontier[:max(0, cap - count)], True
+            results = pool.map(impl_run_safe, frontier, chunksize=2) if frontier else []
+            nxt = []
+            for c, x in zip(frontier, results):
+                out_cases.append(c)
+                out_res.append(x)
+                count += 1
+                k = max(0, len(x.get("obs", [])) - 1)
+                steps = [list(l) for l in c["sched"][:k]] + [e.get("step") for e in x.get("tail", [])]
+                for pos, st in x.get("alts", []):
+                    if all(s_ is not None for s_ in steps[:pos]):
+                        nxt.append(dict(c, sched=steps[:pos] + [st]))
+            frontier = [] if truncated else nxt
+        notes.append(f"implementation-driven: jobs(tmo)={tm} shutdown(wait)={wa}: {'the first ' if truncated else 'all '}{count} maximal runs of the real classes with <= {maxpre} preemptions (data mask {mask})")
+    return out_cases, out_res, notes
 
 
 def compare_obs(a, b):
@@ -1061,17 +1393,17 @@ def compare_obs(a, b):
 _printed_known = set()
 
 
-def report_violation(rep, case, v, hist):
+def report_violation(rep, case, labels, v, hist):
     sig = {"clause": v["clause"], "cause": v["cause"]}
-    for k in KNOWN + common.known_findings().get("findings", []):
+    for k in KNOWN:
         if k.get("property", PID) == PID and common.finding_matches(k, {"sig": sig}):
             hist[k["id"]] = hist.get(k["id"], 0) + 1
             rep.count("known_finding_schedules", k["id"])
             if k["id"] not in _printed_known:
                 _printed_known.add(k["id"])
-                print(f"KNOWN-FINDING: property={PID} {k['id']}: {k['what']} -- e.g. schedule [{show(case['sched'])}] ({v['detail']})")
+                print(f"KNOWN-FINDING: property={PID} {k['id']}: {k['what']} -- e.g. schedule [{show(labels)}] ({v['detail']})")
                 rep.coverage.setdefault("known_finding_examples", {})[k["id"]] = {
-                    "tmos": case["tmos"], "waits": case["waits"], "schedule": show(case["sched"]), "sched": case["sched"], "detail": v["detail"], "sig": sig}
+                    "tmos": case["tmos"], "waits": case["waits"], "schedule": show(labels), "sched": labels, "detail": v["detail"], "sig": sig}
             return True
     return False
 
@@ -1089,14 +1421,19 @@ def run(rep, tier):
     t_start = time.time()
 
     # ---------------- cases
-    cases = [dict(c, maximal=False, family="corpus") for c in CORPUS]
+    cases = [dict(c, maximal=c.get("maximal", False), family="corpus") for c in CORPUS]
     exhaustive_note = []
+    # schedules chosen by the implementation itself (no model needed): random completions from the initial state
+    free_cfg = [([0], [0], 30), ([1], [1], 30), ([0], [1, 0], 50), ([0, 1], [0], 50), ([1, 0], [1], 50), ([0, 0], [1, 0], 60), ([1, 0], [0, 0], 30)]
+    if tier != "quick":
+        free_cfg = [(tm, wa, c * 5) for tm, wa, c in free_cfg] + [([0, 1, 0], [1, 0], 300), ([0, 0, 1], [0], 200)]
+    for tm, wa, cnt in free_cfg:
+        for _ in range(cnt):
+            cases.append({"tmos": tm, "waits": wa, "sched": [], "free": r.randrange(1 << 30), "maximal": False, "family": f"impl-driven:{len(tm)}j{len(wa)}s"})
     if exe is not None:
         fams = families(tier)
-        res = model_parallel(exe, [("c17_enum", [P_, mask] + cfg_words(tm, wa)) for tm, wa, P_, mask in fams]) if len(fams) >= 64 else None
-        if res is None:
-            with cf.ThreadPoolExecutor(16) as tp:
-                res = list(tp.map(lambda f: model_batch(exe, [("c17_enum", [f[2], f[3]] + cfg_words(f[0], f[1]))])[0], fams))
+        with cf.ThreadPoolExecutor(16) as tp:
+            res = list(tp.map(lambda f: model_batch(exe, [("c17_enum", [f[2], f[3]] + cfg_words(f[0], f[1]))])[0], fams))
         for (tm, wa, P_, mask), rr in zip(fams, res):
             if rr is None:
                 rep.fail("broken-tie", f"model enumeration failed for {tm},{wa},{P_},{mask}", case={})
@@ -1106,35 +1443,47 @@ def run(rep, tier):
             for s in ss:
                 cases.append({"tmos": tm, "waits": wa, "sched": s, "maximal": True, "family": f"exh:{len(tm)}j{len(wa)}s"})
         # random deeper schedules
-        rnd = [([0, 1], [0], 200, 3), ([0, 0], [1], 150, 3), ([1, 0], [0, 1], 100, 3)] if tier == "quick" else \
-              [([0, 1], [0], 1500, 4), ([0, 0], [1], 1000, 4), ([1, 0], [0, 1], 1000, 4), ([0, 1, 0], [0], 1500, 3), ([0, 0, 1], [1], 1000, 3), ([0, 1, 0], [0, 1], 1000, 3)]
+        rnd = [([0, 1], [0], 120, 3), ([0, 0], [1], 100, 3), ([1, 0], [0, 1], 80, 3), ([0], [1, 0], 50, 4), ([0, 1], [1, 0], 80, 3)] if tier == "quick" else \
+              [([0, 1], [0], 700, 4), ([0, 0], [1], 500, 4), ([1, 0], [0, 1], 500, 4), ([0, 1], [1, 0], 500, 4), ([0, 1, 0], [0], 700, 3), ([0, 0, 1], [1], 500, 3), ([0, 1, 0], [0, 1], 500, 3)]
         for tm, wa, cnt, P_ in rnd:
             for s in random_schedules(exe, r, tm, wa, cnt, P_):
                 cases.append({"tmos": tm, "waits": wa, "sched": s, "maximal": True, "family": f"rnd:{len(tm)}j{len(wa)}s"})
-    else:
-        # no model: still run the corpus + hand-written schedules through the spec check
-        pass
 
     phase = {"build_s": round(t_start - rep.t0, 1), "generate_s": round(time.time() - t_start, 1)}
     t_ph = time.time()
     # ---------------- implementation (forced schedules) and model traces
     with Pool(min(16, os.cpu_count() or 4)) as pool:
         real_async = pool.map_async(real_low_level, [{"script": s, "timeout": t} for s, t, _, _ in REAL_CASES], chunksize=1)
-        nreal = 0 if tier == "quick" else 200
+        nreal = 0 if tier == "quick" else 120
         rand_async = pool.map_async(real_random_run, [r.randrange(1 << 30) for _ in range(nreal)], chunksize=1) if nreal else None
         real = real_async.get(600)
         rand_real = rand_async.get(1500) if rand_async else []
+        ex_cfgs = [([0], [0], 2, 0), ([0], [1], 2, 0), ([1], [1], 1, 4), ([1], [0], 1, 6), ([0], [1, 0], 1, 0), ([0, 0], [0], 0, 0), ([0, 0], [1], 0, 0)] if tier == "quick" else \
+                  [([0], [0], 2, 15), ([1], [1], 2, 4), ([0], [1, 0], 1, 0), ([1], [0, 0], 1, 4), ([0, 0], [0], 1, 0), ([0, 1], [1], 0, 4)]
+        ex_cases, ex_res, ex_notes = explore_impl(pool, ex_cfgs, 600 if tier == "quick" else 1500)
+        exhaustive_note += ex_notes
         impl = []
         nerr = 0
-        for res_ in pool.imap(impl_run_safe, cases, chunksize=4):
-            impl.append(res_)
-            if res_["error"] is not None:
-                nerr += 1
-                if nerr >= 24:
-                    break          # something is badly broken: do not wait for thousands of time-outs
+        for off in range(0, len(cases), 320):
+            # in batches, so that no task is left queued in the pool when we stop early
+            part = pool.map(impl_run_safe, cases[off:off + 320], chunksize=4)
+            impl += part
+            nerr += sum(1 for x in part if x["error"] is not None)
+            if nerr >= 40:
+                break              # something is badly broken: do not wait for thousands of time-outs
+        skipped = len(cases) - len(impl)
+        if skipped:
+            cases = cases[:len(impl)]
+            rep.coverage["skipped_after_40_errors"] = skipped
+        cases += ex_cases
+        impl += ex_res
         # a thread that is not scheduled for seconds on an overloaded machine looks like a hang:
         # re-run such cases, each in a fresh process with a long limit, before believing them
-        retry = [i for i, x in enumerate(impl) if x["error"] and ("did not settle" in x["error"] or "first gates" in x["error"])]
+        def stalled(x):
+            txt = (x["error"] or "") + " ".join(str(e.get("what")) for e in x.get("tail", []))
+            return "did not settle" in txt or "first gates" in txt
+
+        retry = [i for i, x in enumerate(impl) if stalled(x)]
         if retry and len(retry) < 24:
             os.environ["C17_SETTLE_S"] = "40"
             with Pool(4, maxtasksperchild=1) as pool2:
@@ -1143,39 +1492,53 @@ def run(rep, tier):
             for i, x in zip(retry, again):
                 impl[i] = x
             rep.coverage["retried_after_scheduling_stall"] = len(retry)
-        skipped = len(cases) - len(impl)
-        if skipped:
-            cases = cases[:len(impl)]
-            rep.coverage["skipped_after_24_errors"] = skipped
     phase["impl_s"] = round(time.time() - t_ph, 1)
     t_ph = time.time()
-    model = None
+    # what the implementation did, per case; the model is run on exactly these labels
+    events = [impl_events(c, x) for c, x in zip(cases, impl)]
+    model = quiet = None
     if exe is not None:
-        tr = model_parallel(exe, [("c17_trace", cfg_words(c["tmos"], c["waits"]) + flat(c["sched"])) for c in cases])
+        def msched(i):
+            labels = events[i][0]
+            if impl_driven(cases[i]) and all(l is not None for l in labels):
+                return labels
+            return cases[i]["sched"]
+
+        tr = model_parallel(exe, [("c17_trace", cfg_words(c["tmos"], c["waits"]) + flat(msched(i))) for i, c in enumerate(cases)])
         model = [parse_trace(t, len(c["tmos"]), len(c["waits"])) if t is not None else None for t, c in zip(tr, cases)]
+        fidx = [i for i, c in enumerate(cases) if impl_driven(c)]
+        en = model_parallel(exe, [("c17_enabled", cfg_words(cases[i]["tmos"], cases[i]["waits"]) + flat(msched(i))) for i in fidx]) if fidx else []
+        quiet = dict(zip(fidx, en))
 
     phase["model_trace_s"] = round(time.time() - t_ph, 1)
     rep.coverage["phase_wall_s"] = phase
     known_hist = {}
-    nbad = 0
+    nbad = nfi = 0
     for i, c in enumerate(cases):
         res = impl[i]
+        labels, iobs = events[i]
+        free = impl_driven(c)
         kinds = []
-        tags = {l[0] for l in c["sched"]}
+        tags = {l[0] for l in labels if l is not None}
         if c["waits"]:
             kinds.append("shutdown")
+        if len(c["waits"]) > 1:
+            kinds.append("two-shutdown-callers")
         if len(c["tmos"]) > 1:
             kinds.append("multi-job")
         if COMMTMO in tags:
             kinds.append("timeout")
-        if COMMEXC in tags or any(l[0] == POPEN and not l[2] for l in c["sched"]):
+        if COMMEXC in tags or any(l is not None and l[0] == POPEN and not l[2] for l in labels):
             kinds.append("failure")
+        if SUBUNLOCK in tags:
+            kinds.append("rejected-under-lock")
         rep.count("family", c["family"])
-        rep.count("length", len(c["sched"]) // 5 * 5)
+        rep.count("length", len(labels) // 5 * 5)
         for k in kinds or ["plain"]:
             rep.count("case_kind", k)
-        rep.case({"tmos": c["tmos"], "waits": c["waits"], "schedule": show(c["sched"])}, nontrivial=bool(kinds))
-        casedoc = {"tmos": c["tmos"], "waits": c["waits"], "sched": c["sched"], "schedule": show(c["sched"]), "maximal": c["maximal"]}
+        rep.case({"tmos": c["tmos"], "waits": c["waits"], "schedule": show(labels)}, nontrivial=bool(kinds))
+        casedoc = {"tmos": c["tmos"], "waits": c["waits"], "sched": c["sched"], "free": c.get("free"), "explore": c.get("explore"), "maximal": c["maximal"],
+                   "schedule": show(c["sched"]), "implementation_did": show(labels)}
         # (1) the property on the implementation
         viol = spec_check(c, res)
         seen = set()
@@ -1185,7 +1548,7 @@ def run(rep, tier):
             if key in seen:
                 continue
             seen.add(key)
-            if not report_violation(rep, c, v, known_hist):
+            if not report_violation(rep, c, labels, v, known_hist):
                 unknown_v.append(v)
         if "expect" in c:
             got = {v["clause"]: v["cause"] for v in viol}
@@ -1195,9 +1558,10 @@ def run(rep, tier):
             if not ok:
                 rep.fail("broken-tie", f"the Coq witness {c['name']} does not reproduce on the real classes (error={res['error']}, violations={viol})", case=casedoc)
         for v in unknown_v:
-            nbad += 1
-            if nbad <= 12:
-                rep.fail("failing-input", f"property violated on the real classes: {v['clause']} / {v['cause']}: {v['detail']} -- schedule [{show(c['sched'])}] jobs(tmo)={c['tmos']} shutdown(wait)={c['waits']}",
+            nfi += 1
+            if nfi <= 12:
+                rep.fail("failing-input", f"property violated on the real classes: {v['clause']} / {v['cause']}: {v['detail']} -- the implementation did [{show(labels)}] jobs(tmo)={c['tmos']} shutdown(wait)={c['waits']}"
+                         + (f" (forced prefix [{show(c['sched'][:res['at']])}], then it could not follow {show(c['sched'][res['at']:res['at'] + 1])}: {res['error']}; completed by releasing the first enabled thread)" if res["error"] else ""),
                          case={**casedoc, "violation": v}, sig={"clause": v["clause"], "cause": v["cause"]})
         if unknown_v:
             continue
@@ -1209,21 +1573,42 @@ def run(rep, tier):
                          f"({show(c['sched'][res['at']:res['at'] + 1]) if res['at'] >= 0 else '-'}): {res['error']} -- schedule [{show(c['sched'])}] jobs(tmo)={c['tmos']} shutdown(wait)={c['waits']}",
                          case={**casedoc, "error": res["error"], "at": res["at"], "trace": res.get("trace")})
             continue
+        anomalies = [f"{show([l])} (forced)" for l in c["sched"] if l[0] == RAW] + [e["what"] for e in res.get("tail", []) if e["label"] is None]
+        if anomalies:
+            nbad += 1
+            if nbad <= 12:
+                rep.fail("broken-tie", f"the real classes took a step that the model does not have: {anomalies[0]} -- the implementation did [{show(labels)}] jobs(tmo)={c['tmos']} shutdown(wait)={c['waits']}",
+                         case={**casedoc, "anomalies": anomalies[:5]})
+            continue
+        if res.get("not_quiescent") or (free and not res.get("done")):
+            nbad += 1
+            if nbad <= 12:
+                rep.fail("broken-tie", f"the real classes can still move after [{show(labels)}] ({res.get('not_quiescent')}) where the run should be over, jobs(tmo)={c['tmos']} shutdown(wait)={c['waits']}", case=casedoc)
+            continue
         if model is not None:
             if model[i] is None or not model[i][1]:
                 nbad += 1
                 if nbad <= 12:
-                    rep.fail("broken-tie", f"the model rejects schedule [{show(c['sched'])}]", case=casedoc)
+                    rep.fail("broken-tie", f"the model rejects what the implementation did: [{show(labels)}] jobs(tmo)={c['tmos']} shutdown(wait)={c['waits']}" if free else f"the model rejects schedule [{show(c['sched'])}]", case=casedoc)
                 continue
             mobs = model[i][0]
-            for stepi, (a, m_) in enumerate(zip(res["obs"], mobs)):
+            bad = None
+            if len(mobs) != len(iobs):
+                bad = (min(len(mobs), len(iobs)), f"{len(iobs)} implementation observations, {len(mobs)} model observations")
+            for stepi, (a, m_) in enumerate(zip(iobs, mobs)):
                 d = compare_obs(a, m_)
                 if d is not None:
-                    nbad += 1
-                    if nbad <= 12:
-                        rep.fail("broken-tie", f"model and implementation disagree after {stepi} labels of [{show(c['sched'])}] (jobs(tmo)={c['tmos']} shutdown(wait)={c['waits']}): {d}",
-                                 case={**casedoc, "after": stepi, "difference": d})
+                    bad = (stepi, d)
                     break
+            if bad is None and free:
+                q = quiet.get(i)
+                if not q or q[0] != 1 or q[1] != 1:
+                    bad = (len(labels), f"nothing can move in the implementation but the model is not quiescent: {q[:8] if q else q}")
+            if bad is not None:
+                nbad += 1
+                if nbad <= 12:
+                    rep.fail("broken-tie", f"model and implementation disagree after {bad[0]} labels of [{show(labels)}] (jobs(tmo)={c['tmos']} shutdown(wait)={c['waits']}): {bad[1]}",
+                             case={**casedoc, "after": bad[0], "difference": bad[1]})
     # ---------------- real subprocesses through the real solve_low_level
     for (script, tmo, want, what), got in zip(REAL_CASES, real):
         rep.case({"real": script, "timeout": tmo}, nontrivial=True)
@@ -1241,12 +1626,15 @@ def run(rep, tier):
         if got["stuck"]:
             bad.append(("wait-returns", "waiter-stuck"))
         if got["shutdown_raised"]:
-            rep.count("real_random", f"shutdown(wait={got['wait']}) raised {got['shutdown_raised']} [F15]")
-            if not got["wait"]:
-                bad.append(("shutdown-wait-returns", "shutdown-nowait-raised"))
+            bad.append(("shutdown-wait-returns", "join-reraises-job-exception" if got["wait"] else "shutdown-nowait-raised"))
+        if got["late_submit_ok"]:
+            # start_time is taken by the worker thread, which may be scheduled late (the F6 window): not an acceptance time
+            rep.count("real_random", "worker of an accepted job started after shutdown returned [F6 window]")
+        if got["alive_after_shutdown"] and got["wait"]:
+            bad.append(("no-process-after-shutdown", "join-returned-early"))
         if got["alive_after_shutdown"] and not got["wait"]:
-            # a child alive after shutdown(wait=False): F5/F6 windows are the known causes; cannot be told apart here
-            rep.count("real_random", "child alive after shutdown(wait=False) [F5/F6 window]")
+            # a child alive after shutdown(wait=False): the F6 window is the known cause; cannot be told apart here
+            rep.count("real_random", "child alive after shutdown(wait=False) [F6 window]")
         for cl, ca in bad:
             rep.fail("failing-input", f"randomized real-subprocess run seed={got['seed']}: {cl}/{ca}: {got}", case=got, sig={"clause": cl, "cause": ca})
     rep.coverage["traces_validated_against_impl"] = len(cases) if model is not None else 0
@@ -1259,10 +1647,10 @@ def run(rep, tier):
     rep.coverage["tie_wall_s"] = round(time.time() - t_start, 1)
     return rep.finish(
         checker_cmd="make -C coq Props/C17.vo (coq_makefile, coqc 8.16.1) after regenerating coq/Gen/GenSolveLow.v from /repo/src/halmos/solve.py",
-        trusted_base=common.TRUSTED_BASE_COMMON + ["the scheduling instrumentation of harness/props/C17.py (gates inside Event/Lock/list/Thread/Popen/communicate/poll/set_result/result/ThreadPoolExecutor shims)"],
+        trusted_base=common.TRUSTED_BASE_COMMON + ["the scheduling instrumentation of harness/props/C17.py (gates at thread entry and inside Event/Lock/list/Thread/Popen/communicate/poll/set_result/result/ThreadPoolExecutor shims)"],
         assumptions=ASSUMPTIONS,
         partial=PARTIAL,
-        rule="cases = (job configuration, shutdown callers, schedule); schedules are produced by the extracted model: exhaustively all maximal schedules up to a preemption bound per configuration family (listed in exhaustive_note), plus random maximal schedules with more preemptions, plus the witness schedules of the _refuted theorems; each is forced on the real PopenExecutor/PopenFuture/solve_low_level with a fake Popen and compared with the model after every label; a case is non-trivial when it involves a shutdown caller, several jobs, a timeout or a failure; distinct by hash of configuration + schedule. Real `sh` children are used for the time-limit cases (and randomized runs in the thorough tier).",
+        rule="cases = (job configuration, shutdown callers, schedule). (a) schedules produced by the extracted model: exhaustively all maximal schedules up to a preemption bound per configuration family (listed in exhaustive_note), random maximal schedules with more preemptions, the witness schedule of the _refuted theorem and regression schedules of the repaired defects; each is forced on the real PopenExecutor/PopenFuture/solve_low_level (fake Popen; every thread -- submitter, worker, shutdown caller, cancel task -- runs nothing before its first label is scheduled) and compared with the model after every label; when the implementation cannot follow a label it is left to complete the run by itself and the property is evaluated on what it did. (b) schedules produced by the implementation: random runs to quiescence choosing among the steps its parked threads can take; the model must accept exactly these labels, agree after every one and be quiescent at the end. A case is non-trivial when it involves a shutdown caller, several jobs, a timeout, a failure or a rejection under the lock; distinct by hash of configuration + schedule. Real `sh` children are used for the time-limit cases (and randomized runs in the thorough tier).",
     )
 
 
@@ -1271,10 +1659,16 @@ def replay(rep, body):
         c = f.get("case") or {}
         if "sched" in c:
             case = {"tmos": c["tmos"], "waits": c["waits"], "sched": c["sched"], "maximal": c.get("maximal", False)}
+            if c.get("free") is not None:
+                case["free"] = c["free"]
+            if c.get("explore") is not None:
+                case["explore"] = c["explore"]
             res = impl_run_safe(case)
-            print("schedule      :", show(case["sched"]))
-            print("implementation:", json.dumps(res.get("obs", [])[-1:] + [{"error": res["error"], "at": res["at"]}]))
-            print("property      :", spec_check(case, res))
+            labels, obs = impl_events(case, res)
+            print("forced schedule    :", show(case["sched"]), "" if case.get("free") is None else f"(then random completion, seed {case['free']})")
+            print("implementation did :", show(labels))
+            print("implementation end :", json.dumps(obs[-1:] + [{"error": res["error"], "at": res["at"], "stuck": res.get("stuck")}]))
+            print("property           :", spec_check(case, res))
         elif "real" in c:
             print(real_low_level({"script": c["real"], "timeout": c["timeout"]}))
     return 0
